@@ -454,23 +454,25 @@ def main(tier, replay=None):
     ]
     res.coverage["partial"] = True
     res.coverage["explanation"] = (
-        "THEOREM half (Props/C18.v, all closed under the global context): the reference longest-match splitter split_spec "
-        "(LRM 15 lexeme grammar, independent of both models); BOTH lexer models realise it on every clean input outside "
-        "the listed differences (C18_lang_is_spec over the reader model of vhdl_lang, C18_syn_is_spec over the tokenizer + "
-        "merge model of vhdl_syntax, each for ALL inputs, proved arm by arm), hence lexeme agreement for all inputs in the "
-        "quantifier without a CR byte (C18_lexemes_agree_partial, C18_lexemes_are_spec); agreement for ALL byte strings "
-        "up to length 3 (thorough: 4) over a 24-symbol alphabet that includes CR (C18_lexemes_agree_bounded, vm_compute); "
-        "the refutations: the literal property is false on today's code in exactly four ways (C18_*_refuted: ':' based "
-        "literals, non-integer bit-string merge, PSL reserved words before a tick, CR LF between ticks — all reproduced on "
-        "the real lexers and reported as KNOWN-FINDING), and the pre-5ee4d03 tokenizer on `1:= ` "
+        "THEOREM half (Props/C18.v, all closed under the global context): the property's first clause — for every "
+        "Latin-1 input that is lexically clean for both lexer models, holds no grave accent and no `vhdl_ls`, and lies "
+        "outside the four differences of today's code, the two models split it into the same lexeme sequence — is proved "
+        "for ALL inputs (C18_lexemes_agree), through the reference longest-match splitter split_spec (LRM 15 lexeme "
+        "grammar, independent of both models) that each model realises when clean (C18_lang_is_spec[_eol] over the reader "
+        "model of vhdl_lang, C18_syn_is_spec[_eol] over the tokenizer + merge model of vhdl_syntax, arm by arm; "
+        "C18_lexemes_are_spec; C18_split_spec_normalisation for CR / CR LF line breaks); an independent vm_compute "
+        "evaluation of both models on ALL byte strings up to length 3 (thorough: 4) over a 24-symbol alphabet "
+        "(C18_lexemes_agree_bounded); the refutations: the literal property is false on today's code in exactly four ways "
+        "(C18_*_refuted: ':' based literals, non-integer bit-string merge, PSL reserved words before a tick, CR LF between "
+        "ticks — all reproduced on the real lexers and reported as KNOWN-FINDING), and the pre-5ee4d03 tokenizer on `1:= ` "
         "(C18_clean_mismatch_old_refuted).  The models are tied to the code on every run: both real lexers against both "
-        "extracted models on all generated inputs (lexemes and cleanliness), and split_spec against both.  The DECISIVE "
-        "check of the first clause is the differential of the two REAL lexers.  EXPLORATION half (second clause): "
+        "extracted models on all generated inputs (lexemes and cleanliness), and split_spec against both; the "
+        "implementation-level oracle is the differential of the two REAL lexers.  EXPLORATION half (second clause): "
         "acceptance by both real parsers + SyntaxNode::validate() on the bundled libraries and on generated valid programs "
-        "in generous and minimal legal spacing; there is no model of the parsers, which is why the level is `other`.")
+        "in generous and minimal legal spacing; there is no model of the parsers, which is why the level is `other` and the "
+        "claim is partial.")
     res.coverage["unproved"] = [
-        "C18_lexemes_agree for inputs that hold a CR byte (line breaks CR / CR LF): bounded theorem + differential run only",
-        "acceptance: no parser model; explored on libraries and generated programs only",
+        "acceptance (second clause): no parser model; explored on libraries and generated programs only",
     ]
     res.assumptions = [
         "lexically clean = vhdl_lang's TokenStream::new pushes no diagnostic (errors and identifier warnings) AND no token of "
